@@ -414,81 +414,89 @@ Definition lf_records (st : bstate) (f : lfile) (frames : list (nat * list (list
 Definition find_wframe (w : wopts) (fr : nat) : option wframe :=
   (fix go (l : list wframe) := match l with [] => None | x :: r => if Nat.eqb (wf_item x) fr then Some x else go r end) (w_frames w).
 
+(* 1. check_objects, every logical file *)
+Fixpoint check_all (hc : bool) (k : nat) (fs : list lfile) (s : bstate) : res bstate :=
+  match fs with
+  | [] => OK s
+  | _ :: rest => match lf_at s k with
+                 | Some f => do s' <- check_objects hc s k f; check_all hc (S k) rest s'
+                 | None => Err EOther end
+  end.
+
+Definition rows_t := list (list slot).
+
+(* 2. the frames of one logical file: data wrappers and set-up from data *)
+Definition setup_step (hc : bool) (w : wopts) (k : nat) (acc : bstate * res (list (nat * option rows_t))) (fr : nat)
+  : bstate * res (list (nat * option rows_t)) :=
+  let '(sa, ra) := acc in
+  match ra with
+  | Err e => (sa, Err e)
+  | OK l =>
+      match find_wframe w fr with
+      | None => (sa, Err EOther)
+      | Some wf => match setup_frame hc sa k w wf with
+                   | OK (sb, rows) => (sb, OK (l ++ [(fr, rows)]))
+                   | Err e => (sa, Err e)      (* mutations of the failed frame are dropped in the model: see note *)
+                   end
+      end
+  end.
+
+Fixpoint setup_all (hc : bool) (w : wopts) (k : nat) (fs : list lfile) (s : bstate) (acc : list (list (nat * option rows_t))) {struct fs}
+  : bstate * res (list (list (nat * option rows_t))) :=
+  match fs with
+  | [] => (s, OK acc)
+  | _ :: rest =>
+      match lf_at s k with
+      | None => (s, Err EOther)
+      | Some f =>
+          let '(s', fr) := fold_left (setup_step hc w k) (lf_frames s f) (s, OK []) in
+          match fr with
+          | Err e => (s', Err e)
+          | OK l => setup_all hc w (S k) rest s' (acc ++ [l])
+          end
+      end
+  end.
+
+(* 3. the records of every logical file, in generator order *)
+Fixpoint records_all (k : nat) (l : list (list (nat * option rows_t))) (s : bstate) (acc : list lrec) {struct l} : bstate * res (list lrec) :=
+  match l with
+  | [] => (s, OK acc)
+  | frs :: rest =>
+      match lf_at s k with
+      | None => (s, Err EOther)
+      | Some f =>
+          match map_opt (fun '(fr, rows) => match rows with Some r => Some (fr, r) | None => None end) frs with
+          | None =>
+              (* a data set with a different number of rows: raised when the first chunk is loaded,
+                 after the EFLRs of this logical file were produced *)
+              match lf_records s f [] with
+              | OK (s', _) => (s', Err EValue)
+              | Err e => (s, Err e)
+              end
+          | Some frs' =>
+              match lf_records s f frs' with
+              | OK (s', recs) => records_all (S k) rest s' (acc ++ recs)
+              | Err e => (s, Err e)
+              end
+          end
+      end
+  end.
+
 (* DLISFile.write *)
 Definition write (hc : bool) (st : bstate) (w : wopts) : bstate * res bytes :=
-  (* 1. check_objects, every logical file *)
-  let r1 := (fix go (k : nat) (fs : list lfile) (s : bstate) : res bstate :=
-               match fs with
-               | [] => OK s
-               | _ :: rest => match lf_at s k with
-                              | Some f => do s' <- check_objects hc s k f; go (S k) rest s'
-                              | None => Err EOther end
-               end) 0%nat (b_lfs st) st in
-  match r1 with
+  match check_all hc 0%nat (b_lfs st) st with
   | Err e => (st, Err e)
   | OK st1 =>
-      (* 2. frames of every logical file: data wrappers and set-up from data *)
-      let r2 := (fix go (k : nat) (fs : list lfile) (s : bstate) (acc : list (list (nat * option (list (list slot))))) {struct fs}
-                   : bstate * res (list (list (nat * option (list (list slot))))) :=
-                   match fs with
-                   | [] => (s, OK acc)
-                   | _ :: rest =>
-                       match lf_at s k with
-                       | None => (s, Err EOther)
-                       | Some f =>
-                           let '(s', fr) :=
-                             fold_left (fun '(sa, ra) fr =>
-                                          match ra with
-                                          | Err e => (sa, Err e)
-                                          | OK l =>
-                                              match find_wframe w fr with
-                                              | None => (sa, Err EOther)
-                                              | Some wf => match setup_frame hc sa k w wf with
-                                                           | OK (sb, rows) => (sb, OK (l ++ [(fr, rows)]))
-                                                           | Err e => (sa, Err e)      (* mutations of the failed frame are dropped in the model: see note *)
-                                                           end
-                                              end
-                                          end) (lf_frames s f) (s, OK []) in
-                           match fr with
-                           | Err e => (s', Err e)
-                           | OK l => go (S k) rest s' (acc ++ [l])
-                           end
-                       end
-                   end) 0%nat (b_lfs st1) st1 [] in
-      match r2 with
+      match setup_all hc w 0%nat (b_lfs st1) st1 [] with
       | (st2, Err e) => (st2, Err e)
       | (st2, OK perlf) =>
-          (* 3. the writer: record length, label, then the records in generator order *)
+          (* the writer: record length, label, then the records *)
           if negb (check_vrl (w_vrl w)) then (st2, Err EValue)
           else
             match sul_bytes {| sul_seq := w_seq w; sul_vrl := w_vrl w; sul_id := w_ident w |} with
             | Err e => (st2, Err e)
             | OK _ =>
-                let r3 := (fix go (k : nat) (l : list (list (nat * option (list (list slot))))) (s : bstate) (acc : list lrec) {struct l}
-                             : bstate * res (list lrec) :=
-                             match l with
-                             | [] => (s, OK acc)
-                             | frs :: rest =>
-                                 match lf_at s k with
-                                 | None => (s, Err EOther)
-                                 | Some f =>
-                                     match map_opt (fun '(fr, rows) => match rows with Some r => Some (fr, r) | None => None end) frs with
-                                     | None =>
-                                         (* a data set with a different number of rows: raised when the first chunk is loaded,
-                                            after the EFLRs of this logical file were produced *)
-                                         match lf_records s f [] with
-                                         | OK (s', _) => (s', Err EValue)
-                                         | Err e => (s, Err e)
-                                         end
-                                     | Some frs' =>
-                                         match lf_records s f frs' with
-                                         | OK (s', recs) => go (S k) rest s' (acc ++ recs)
-                                         | Err e => (s, Err e)
-                                         end
-                                     end
-                                 end
-                             end) 0%nat perlf st2 [] in
-                match r3 with
+                match records_all 0%nat perlf st2 [] with
                 | (st3, Err e) => (st3, Err e)
                 | (st3, OK recs) => (st3, write_file {| sul_seq := w_seq w; sul_vrl := w_vrl w; sul_id := w_ident w |} recs)
                 end
